@@ -157,10 +157,6 @@ def _resolve_target_set_from_expr(
             output = target.output
             if output is None:
                 raise ValueError("Unexpected function output type")
-            if isinstance(output, FunctionCall):
-                output_argument = _resolve_call_argument(output)
-                if output_argument is not None:
-                    return output_argument
             if isinstance(output, AttributeSet):
                 _inherit(output, scope_chain)
                 return output
